@@ -52,6 +52,11 @@ struct Tally {
     sample: Option<serde_json::Value>,
 }
 
+thread_local! {
+    /// whether recoveries on this worker are crashed again at every prefix of their own writes
+    static NESTED: std::cell::Cell<bool> = const { std::cell::Cell::new(true) };
+}
+
 struct Shared {
     seen: Mutex<HashSet<(u64, u64, Backend)>>,
 }
@@ -107,7 +112,7 @@ async fn check_crash_state(
     for (sig, msg) in crash::continuation(&mut fx, exp, &resolved).await {
         push(t, format!("{}|{sig}", if nested { "nested" } else { "first" }), msg);
     }
-    if !nested {
+    if !nested && NESTED.with(|n| n.get()) {
         // crash again at every strict prefix of the recovery's own mutations
         let mut c = content.clone();
         for (j, e) in recovery_journal.iter().enumerate() {
@@ -130,7 +135,7 @@ fn bulk_prelude() -> Vec<Op> {
     v
 }
 
-fn run_workload(prelude: &[Op], workload: &[Op], start_idx: Idx, backend: Backend, faults: bool, shared: &Shared) -> Tally {
+fn run_workload(prelude: &[Op], workload: &[Op], start_idx: Idx, backend: Backend, faults: bool, creation: bool, shared: &Shared) -> Tally {
     let mut t = Tally::default();
     util::block_on(async {
         let rec = crash::record_with_prelude(prelude, workload, start_idx, backend, None).await;
@@ -144,6 +149,10 @@ fn run_workload(prelude: &[Op], workload: &[Op], start_idx: Idx, backend: Backen
                 ctlstore::apply(&mut content, &rec.journal[k - 1].mutation);
             }
             if k < rec.prelude_end {
+                continue;
+            }
+            // the creation phase is the same for every workload: enumerate its crash points once per backend
+            if k < rec.created_at && !creation {
                 continue;
             }
             let exp = crash::expectation_at(&rec, k);
@@ -162,7 +171,8 @@ fn run_workload(prelude: &[Op], workload: &[Op], start_idx: Idx, backend: Backen
             }
         }
         if faults {
-            for i in 0..(rec.attempts - rec.prelude_attempts) {
+            let first_fault = if creation || !prelude.is_empty() { 0 } else { rec.ops.first().map(|r| r.att_start).unwrap_or(0) };
+            for i in first_fault..(rec.attempts - rec.prelude_attempts) {
                 let frec = crash::record_with_prelude(prelude, workload, start_idx, backend, Some(i)).await;
                 t.fault_runs += 1;
                 let exp = crash::expectation_after_fault(&frec, frec.prelude_attempts + i);
@@ -239,13 +249,40 @@ fn main() {
     let threads = util::n_threads();
     let shared = Shared { seen: Mutex::new(HashSet::new()) };
     let starts = [if c04 { Idx { age_opt: true, emb: false, ..Idx::ALL } } else { Idx::ALL }];
-    let backends: Vec<Backend> = run.tier.pick(vec![Backend::Mem], vec![Backend::Mem, Backend::Meta, Backend::Enc]);
-    let max_depth = run.tier.pick(3, 4);
+    // (backend, depth, alphabet size, nested crashes during recovery)
+    let plan: Vec<(Backend, usize, usize, bool)> = if c04 {
+        run.tier.pick(
+            vec![(Backend::Mem, 1, 10, true), (Backend::Mem, 2, 10, true), (Backend::Mem, 3, 9, true)],
+            vec![(Backend::Mem, 1, 10, true), (Backend::Mem, 2, 10, true), (Backend::Mem, 3, 10, true), (Backend::Meta, 2, 10, true), (Backend::Enc, 2, 10, true), (Backend::Mem, 4, 8, true)],
+        )
+    } else {
+        run.tier.pick(
+            vec![
+                (Backend::Mem, 1, 18, true),
+                (Backend::Mem, 2, 18, true),
+                (Backend::Mem, 3, 9, true),
+                (Backend::Meta, 1, 18, false),
+                (Backend::Enc, 1, 18, false),
+            ],
+            vec![
+                (Backend::Mem, 1, 18, true),
+                (Backend::Meta, 1, 18, true),
+                (Backend::Enc, 1, 18, true),
+                (Backend::Mem, 2, 18, true),
+                (Backend::Meta, 2, 18, true),
+                (Backend::Enc, 2, 18, true),
+                (Backend::Mem, 3, 18, true),
+                (Backend::Meta, 3, 9, true),
+                (Backend::Enc, 3, 9, true),
+                (Backend::Mem, 4, 10, true),
+            ],
+        )
+    };
     let mut completed: Vec<String> = Vec::new();
-    'outer: for backend in &backends {
-        for depth in 1..=max_depth {
-            // quick: the full alphabet at depth <= 2, a 9-op core alphabet at depth 3
-            let alpha: Vec<Op> = if depth >= 3 && run.tier == vcore::Tier::Quick { ops[..9].to_vec() } else if depth >= 4 { ops[..10].to_vec() } else { ops.clone() };
+    'outer: for (backend, depth, asize, nested_on) in plan {
+        {
+            let backend = &backend;
+            let alpha: Vec<Op> = ops[..asize.min(ops.len())].to_vec();
             let total = (alpha.len() as u64).pow(depth as u32);
             let mut items: Vec<Vec<Op>> = Vec::new();
             for n in 0..total {
@@ -256,21 +293,20 @@ fn main() {
                     x /= alpha.len() as u64;
                 }
                 hist.reverse();
-                // a workload whose last op is a pure rejection adds no new crash state
                 items.push(hist);
             }
             // quick: ambiguous failures for every workload at depth <= 2 and, at depth 3,
             // for the workloads over the 6-operation core {add, add, flush, update, remove, update}
             let quick = run.tier == vcore::Tier::Quick;
             let faults_all = depth <= run.tier.pick(2, 3);
-            let done = Mutex::new(0u64);
             let tallies = util::par_map(items, threads, |w| {
                 if Instant::now() > deadline {
                     return None;
                 }
                 let core6 = quick && depth == 3 && w.iter().all(|o| ops[..6].contains(o));
-                let t = run_workload(&[], &w, starts[0], *backend, faults_all || core6, &shared);
-                *done.lock() += 1;
+                let creation = depth == 1 && w == vec![ops[0].clone()];
+                NESTED.with(|n| n.set(nested_on));
+                let t = run_workload(&[], &w, starts[0], *backend, faults_all || core6, creation, &shared);
                 Some(t)
             });
             let mut finished = 0u64;
@@ -295,7 +331,7 @@ fn main() {
                 run.cap_hit(&format!("time budget inside backend {backend:?} depth {depth}: {finished}/{total} workloads"));
                 break 'outer;
             }
-            completed.push(format!("{backend:?}:depth{depth}:alphabet{}", alpha.len()));
+            completed.push(format!("{backend:?}:depth{depth}:alphabet{}:nested={nested_on}", alpha.len()));
             if run.violation_count() > 0 {
                 break 'outer;
             }
@@ -323,7 +359,7 @@ fn main() {
                 if Instant::now() > deadline {
                     return None;
                 }
-                Some(run_workload(&prelude, &w, starts[0], Backend::Mem, depth <= 1, &shared))
+                Some(run_workload(&prelude, &w, starts[0], Backend::Mem, depth <= 1, false, &shared))
             });
             let mut finished = 0u64;
             for t in tallies.into_iter().flatten() {
